@@ -296,6 +296,13 @@ func GenIngress(rng *rand.Rand, k int) *networking.Ingress {
 		rules = nil
 	}
 	ing := world.Ingress(ns, world.IngressNames[k%len(world.IngressNames)], 10+rng.Intn(20), rules...)
+	for i := range ing.Spec.Rules {
+		for j := range ing.Spec.Rules[i].HTTP.Paths {
+			if rng.Intn(12) == 0 {
+				ing.Spec.Rules[i].HTTP.Paths[j].Backend = ResourceBackend()
+			}
+		}
+	}
 	if rng.Intn(5) == 0 || rules == nil {
 		b := world.Backend(pick(rng, svcNames), "", 80)
 		ing.Spec.DefaultBackend = &b
@@ -316,18 +323,47 @@ func GenIngress(rng *rand.Rand, k int) *networking.Ingress {
 	return ing
 }
 
+// ResourceBackend is a backend of kind `resource` (TypedLocalObjectReference): valid
+// networking.k8s.io/v1, not supported by the controller ("resource backend is not supported yet").
+func ResourceBackend() networking.IngressBackend {
+	group := "k8s.example.com"
+	return networking.IngressBackend{Resource: &api.TypedLocalObjectReference{APIGroup: &group, Kind: "StorageBucket", Name: "static-assets"}}
+}
+
 // GenTCPIngress generates an ingress of a TCP service port: the backend, only the TLS block
 // (the documented way of splitting the TLS of a TCP service into its own ingress), or both;
 // several ingresses share the ports.
 func GenTCPIngress(rng *rand.Rand, k int) *networking.Ingress {
 	ns := world.Namespaces[0]
 	var rules []world.IngRule
-	kind := rng.Intn(3) // 0 backend, 1 tls only, 2 both
+	kind := rng.Intn(3)    // 0 backend, 1 tls only, 2 both
+	var resources [][2]int // rule, path whose backend becomes a `resource`
 	if kind != 1 {
-		h := pick(rng, []string{"", "", "a.example", "b.example"})
-		rules = append(rules, world.IngRule{Host: h, Paths: []world.IngPath{{Path: pick(rng, []string{"/", "", "/app"}), Type: "Prefix", Service: pick(rng, svcNames[:4]), PortNum: 80}}})
+		for i, n := 0, 1+rng.Intn(2); i < n; i++ {
+			h := pick(rng, []string{"", "", "a.example", "b.example", "a.example"})
+			r := world.IngRule{Host: h}
+			for j, m := 0, 1+rng.Intn(2); j < m; j++ {
+				// existing / missing service, existing / missing port, a second declaration of the host
+				p := world.IngPath{Path: pick(rng, []string{"/", "", "/app"}), Type: "Prefix", Service: pick(rng, svcNames), PortNum: pick(rng, []int{80, 80, 80, 81})}
+				if rng.Intn(4) == 0 {
+					resources = append(resources, [2]int{i, j})
+				}
+				r.Paths = append(r.Paths, p)
+			}
+			rules = append(rules, r)
+		}
 	}
 	ing := world.Ingress(ns, world.IngressNames[k%len(world.IngressNames)], 10+rng.Intn(20), rules...)
+	for _, rp := range resources {
+		ing.Spec.Rules[rp[0]].HTTP.Paths[rp[1]].Backend = ResourceBackend()
+	}
+	if kind != 1 && rng.Intn(6) == 0 {
+		b := ResourceBackend()
+		if rng.Intn(2) == 0 {
+			b = world.Backend(pick(rng, svcNames), "", 80)
+		}
+		ing.Spec.DefaultBackend = &b
+	}
 	ing.Annotations = map[string]string{ann + "tcp-service-port": pick(rng, []string{"7000", "7000", "7001"})}
 	if kind != 0 {
 		t := networking.IngressTLS{SecretName: pick(rng, []string{"tls-valid", "tls-valid", "tls-bad", "tls-absent", ""})}
